@@ -12,8 +12,7 @@ refinement (`inv_b`) checked before every step; where it succeeds (`CHECKED`) th
 `prints_admitted_checked` applies to that very run: its labels are printed by an execution of
 spec/Sax.v.  The check counts these runs, compares their labels with the uninstrumented model run and
 with the real interpreter, and reports every program of the linear fragment on which the invariant
-check fails.  `c04premises` evaluates the computable premises of the theorem C04_prints_admitted (closed,
-rt_syn_ok, init_linear) on every program text: where they hold the theorem covers every run of the
+check fails.  `c04premises` evaluates the computable premises of the theorem C04_prints_admitted (closed, init_linear) on every program text: where they hold the theorem covers every run of the
 program in the two polarized modes (no run-by-run check needed), and the counts say for how many
 programs of the suite that is the case."""
 import collections
@@ -124,7 +123,7 @@ def refinement_runs(b, d, tier):
                     inv_fail_linear.append(i)
                 else:
                     inv_fail_other += 1
-    # the premises of C04_prints_admitted (closed, rt_syn_ok, init_linear), evaluated on the text: where they
+    # the premises of C04_prints_admitted (closed, init_linear), evaluated on the text: where they
     # hold the theorem covers EVERY run of the program in the two polarized modes, and the checked run must succeed
     prem = S.run_tool(b.model, "c04premises", cases, timeout=1800)
     prem_ok = {i for i, _ in d.programs if prem.get(i, "").split("\t")[0] == "PREMISES-OK"}
@@ -152,7 +151,7 @@ def refinement_runs(b, d, tier):
     if inv_fail_linear:
         known.append("refinement-invariant check failed on linear-fragment programs (theorem not applicable to them; covered by the correspondence only): %s" % sorted(set(inv_fail_linear))[:10])
     cov = {"schedules": seeds,
-           "programs_satisfying_premises_of_C04_prints_admitted (closed, rt_syn_ok, init_linear: every run covered by the theorem, async and sync)": len(prem_ok),
+           "programs_satisfying_premises_of_C04_prints_admitted (closed, init_linear: every run covered by the theorem, async and sync)": len(prem_ok),
            "linear_fragment_programs_not_satisfying_them (covered by the checked runs and the correspondence only)": lin_without_premises[:20],
            "implementation_sync_runs_compared_with_sax_admitted_multiset": sync_compared,
            "runs_covered_by_prints_admitted_checked": checked,
